@@ -394,20 +394,19 @@ def replay (stepf : St → Char → R) : List Char → St → Res St
     | .ok (st', _) => replay stepf rest st'
     | .error e => .error e
 
+/-- `invoke_macro_by_id`: unknown id → nothing; at top level (`macro_depth == 0`) the expansion budget is reset -/
+def invoker (stepf : St → Char → R) (top : Bool) (id : Int) (st : St) : Res St :=
+  match macroGet st.p.macros id.toNat with
+  | none => .ok st
+  | some body =>
+    replay stepf body (if top then { st with p := { st.p with budget := MAX_MACRO_EXPANSION } } else st)
+
+def tickSt (st : St) : St := { st with p := { st.p with tick := st.p.tick + 1 } }
+
 def stepD : Nat → Cfg → (Nat → Orc) → St → Char → R
-  | 0, cfg, o, st, ch =>
-    let st := { st with p := { st.p with tick := st.p.tick + 1 } }
-    stepCore cfg (o (st.p.tick - 1)) (fun _ st => .ok st) st ch
+  | 0, cfg, o, st, ch => stepCore cfg (o st.p.tick) (fun _ st => .ok st) (tickSt st) ch
   | d+1, cfg, o, st, ch =>
-    let st := { st with p := { st.p with tick := st.p.tick + 1 } }
-    stepCore cfg (o (st.p.tick - 1))
-      (fun id st =>
-        match macroGet st.p.macros id.toNat with
-        | none => .ok st
-        | some body =>
-          let st := if d + 1 = MAX_MACRO_DEPTH then { st with p := { st.p with budget := MAX_MACRO_EXPANSION } } else st
-          replay (stepD d cfg o) body st)
-      st ch
+    stepCore cfg (o st.p.tick) (invoker (stepD d cfg o) (decide (d + 1 = MAX_MACRO_DEPTH))) (tickSt st) ch
 
 def step (cfg : Cfg) (o : Nat → Orc) (st : St) (ch : Char) : R := stepD MAX_MACRO_DEPTH cfg o st ch
 
